@@ -277,7 +277,7 @@ class Gen:
             bans = [r.choice(pool) for _ in range(r.choice([1, 1, 2]))]
         return "acl.check %s T1(%s) %s %s %s" % (
             self.mode, ",".join(ser(x) for x in rules),
-            ",".join(acts) if acts is not None and acts else ("-" if acts is None or not rules else ","),
+            ",".join(acts) if acts else "-",
             ",".join(bans) or "-",
             ",".join("%d:%d:%d:%s" % (i, s[0], s[1], s[2] or ".") for i, s in sorted(self.leaves.items())) or "-")
 
@@ -286,12 +286,7 @@ def gen_cases(rng, n):
     out = []
     for _ in range(n):
         mode = rng.choice(["nb"] * 11 + ["fast"] * 6 + ["fastlist"] * 3)
-        c = Gen(rng, mode).case()
-        a = c.split()
-        if a[3] == ",":       # no rules: a tree without actions
-            a[3] = "-"
-            c = " ".join(a)
-        out.append(c)
+        out.append(Gen(rng, mode).case())
     return out
 
 
